@@ -1,6 +1,7 @@
 """C14 - the bit reader delivers each bit once, in order: decided for the *effect discipline* (which operations may move
 the position, and when), the forms of the arithmetic helpers, the start-code scan and VLC-walk termination.
 MSB-first assembly inside peek_bits' byte loop is decided by rule H (the loop's transfer function, tabulated)."""
+import re
 from ..cfg import cfg_of
 from ..dataflow import (defs_of, callee_is, strip_ref, fields_of, expr_of, expr_of_place, strip_casts, expr_str, ematch, V, ANY)
 from .. import effects, tables
@@ -258,6 +259,9 @@ def e_helper_forms(ck, F):
         ext = ('callp', 'BitOr::bitor', val, ('callp', '::unwrap_or_else', ('callp', 'CheckedShl::checked_shl', ('callp', 'Not::not', ('callp', 'Zero::zero')), ('param', 2, ())), ANY))
         r_nz = ret_from(nz); r_z = ret_from(z)
         okp = (r_nz is not None and ematch(('agg', 'Ok', ext), r_nz) is not None and r_z is not None and ematch(('agg', 'Ok', val), r_z) is not None)
+        # no other way to return a value: every `Ok(..)` return is one of those two, and both sit behind the sign test
+        oks = [(bb, e) for bb, e in rets.items() if e[0] == 'agg' and e[1] == 'Ok']
+        if len(oks) != 2 or any(not g.dominates(sw[0], bb) for bb, _ in oks): okp = False
     if okp: ck.ok('E', 'peek_signed_bits: value | (!0 << n) iff (value >> (n-1)) != 0, else value', where_of(b))
     else: ck.violation('E', 'E : peek_signed_bits : sign extension', where_of(b), 'peek_signed_bits does not implement two\'s-complement sign extension in the recognised form')
 
@@ -274,32 +278,67 @@ def h_msb_first(ck, F):
     for l, nm in T.names.items(): byname.setdefault(nm, []).append(int(l))
     def defs(nm):
         out = []
-        for l in byname.get(nm, []):
+        ls = byname.get(nm, [])
+        if not ls and re.match(r'^_\d+$', nm): ls = [int(nm[1:])]
+        for l in ls:
             for d in T.D.defs.get(l, []):
                 if d[0] == 'assign': out.append((d[1], N.n(T.ex_rv(d[3]['rv']))))
                 elif d[0] == 'call': out.append((d[1], N.n(T.ex_call(d[1], g.blocks[d[1]]['term']))))
         return out
     bad = []
     POS = ('fld', ('v', 'self'), (rr.F_BITS,))
-    A, OFF, NEED = ('v', 'accum'), ('v', 'bits_read'), ('v', 'bits_needed')
-    acc = defs('accum'); off = defs('bits_read'); need = defs('bits_needed')
     loops = g.loops()
     if len(loops) != 1: ck.violation('H', 'H : peek_bits : loop', where_of(b), 'expected one loop, found %d' % len(loops)); return
     head, body = next(iter(loops.items()))
+    # the variables, found by their roles (not by their names): the accumulator is what is returned after the loop, the remaining count is the
+    # second parameter, the bit offset is the amount the current byte is shifted left by
+    rets_all = [(x[0], N.n(x[2])) for x in T.local_defs(0) if x[2] is not None]
+    after = [v for bb, v in rets_all if bb not in body and bb in g.reachable_from([head])]
+    if len(after) != 1 or after[0][0] != 'agg' or after[0][1] != 'Ok' or len(after[0]) != 3 or after[0][2][0] != 'v':
+        ck.violation('H', 'H : peek_bits : result', where_of(b), 'after the loop the function returns %s, expected Ok(<accumulator>)' % [nshow(v) for v in after]); return
+    A = after[0][2]
+    NEED = N.n(('param', 2, ()))
+    def loop_updates(var):
+        ups = [(bb, v) for bb, v in defs(var[1]) if bb in body]
+        # `x = match .. { .. }`: one assignment from a temporary that is itself assigned in each arm
+        out = []
+        for bb, v in ups:
+            if v[0] == 'v' and v != var and len([1 for bb2, _ in defs(v[1]) if bb2 in body]) >= 2: out += [(bb2, v2) for bb2, v2 in defs(v[1]) if bb2 in body]
+            else: out.append((bb, v))
+        return out
+    acc = defs(A[1]); need = defs(NEED[1])
+    init_acc = [v for bb, v in acc if bb not in body]; upd_acc = loop_updates(A)
+    upd_need = [(bb, v) for bb, v in need if bb in body]
+    shl = set()
+    for _, v in upd_acc: shl |= set(nfind(v, lambda z_: z_[0] == 'f' and z_[1] == 'shl' and len(z_) == 4 and z_[3][0] == 'v'))
+    if len({x[3] for x in shl}) != 1:
+        ck.violation('H', 'H : peek_bits : offset', where_of(b), 'the accumulator updates do not shift the current byte left by one offset variable (%s)' % [nshow(x) for x in shl]); return
+    OFF = next(iter(shl))[3]
+    off = defs(OFF[1])
+    init_off = [v for bb, v in off if bb not in body]; upd_off = [(bb, v) for bb, v in off if bb in body]
     # the bytes visited: buffer.iter().skip(bits_read / 8)
     it = [expr_of(F, b, t['args'][0]) for bb, t in g.calls() if F.callee_name(t).endswith('IntoIterator>::into_iter')]
-    want_it = ('callp', 'Iterator::skip', ('callp', 'VecDeque::<T, A>::iter', ('param', 1, (rr.F_BUFFER,))), ('op', 'Div', ('param', 1, (rr.F_BITS,)), ('c', 8)))
-    if len(it) != 1 or ematch(want_it, it[0]) is None: bad.append('the loop does not visit buffer.iter().skip(bits_read / 8): %s' % [expr_str(x) for x in it])
+    def ev_df(e, pos):
+        if e[0] == 'c' and isinstance(e[1], int): return e[1]
+        if e == ('param', 1, (rr.F_BITS,)): return pos
+        if e[0] == 'cast': return ev_df(e[2], pos)
+        if e[0] == 'op' and len(e) == 4:
+            x, y = ev_df(e[2], pos), ev_df(e[3], pos)
+            f = {'Div': lambda: x // y, 'Rem': lambda: x % y, 'Shr': lambda: x >> y, 'BitAnd': lambda: x & y, 'Mul': lambda: x * y, 'Add': lambda: x + y, 'Sub': lambda: x - y}.get(e[1])
+            if f: return f()
+        raise Unanalysable('skip count %s' % expr_str(e))
+    okit = False
+    if len(it) == 1 and ematch(('callp', 'Iterator::skip', ('callp', 'VecDeque::<T, A>::iter', ('param', 1, (rr.F_BUFFER,))), ANY), it[0]) is not None:
+        try: okit = all(ev_df(it[0][3], p_) == p_ // 8 for p_ in range(0, 512))
+        except (Unanalysable, ZeroDivisionError): okit = False
+    if not okit: bad.append('the loop does not visit buffer.iter().skip(bits_read / 8): %s' % [expr_str(x) for x in it])
     # initial values
-    init_acc = [v for bb, v in acc if bb not in body]; upd_acc = [(bb, v) for bb, v in acc if bb in body]
-    init_off = [v for bb, v in off if bb not in body]; upd_off = [(bb, v) for bb, v in off if bb in body]
-    upd_need = [(bb, v) for bb, v in need if bb in body]
-    if [nshow(x) for x in init_acc] != ['zero()']: bad.append('accum starts as %s' % [nshow(x) for x in init_acc])
+    if [nshow(x) for x in init_acc] != ['zero()']: bad.append('the accumulator starts as %s' % [nshow(x) for x in init_acc])
     try:
         if len(init_off) != 1 or any(ev(init_off[0], {POS: p_}) != p_ % 8 for p_ in range(0, 256)): bad.append('the bit offset starts as %s' % [nshow(x) for x in init_off])
     except (Unanalysable, NotExact) as e_: bad.append('initial offset: %s' % e_)
     if [nshow(v) for _, v in upd_off] != ['0']: bad.append('the bit offset is updated to %s inside the loop' % [nshow(v) for _, v in upd_off])
-    if len(upd_need) != 1 or len(upd_acc) != 2: bad.append('expected one update of bits_needed and two of accum in the loop, found %d / %d' % (len(upd_need), len(upd_acc)))
+    if len(upd_need) != 1 or len(upd_acc) != 2: bad.append('expected one update of the remaining count and two of the accumulator in the loop, found %d / %d' % (len(upd_need), len(upd_acc)))
     if bad:
         ck.violation('H', 'H : peek_bits : shape', where_of(b), '; '.join(bad)); return
     # the current byte: the loop item
@@ -378,10 +417,8 @@ def h_msb_first(ck, F):
     stop = False
     for a_, s_ in nguards(T, upd_acc[0][0]):
         gt = guard_term(T, N, a_, s_)
-        if a_ in body and nshow(gt[0]) in ('Eq(0, bits_needed)', 'Eq(bits_needed, 0)') and gt[1] == [0]: stop = True
+        if a_ in body and gt[0] in (('f', 'Eq', ('c', 0), NEED), ('f', 'Eq', NEED, ('c', 0))) and gt[1] == [0]: stop = True
     if not stop: bad.append('an iteration is not skipped when bits_needed == 0')
-    rets = [nshow(N.n(x[2])) for x in T.local_defs(0) if x[2] is not None and x[0] not in body and g.reachable_from([head]) and x[0] in g.reachable_from([head])]
-    if rets != ['Ok(accum)']: bad.append('after the loop the function returns %s' % rets)
     if bad: ck.violation('H', 'H : peek_bits : MSB-first assembly', where_of(b, upd_acc[0][0]), '; '.join(bad[:4]))
     else: ck.ok('H', 'peek_bits: accum := (accum << k) | ((byte << offset) as u8 >> (8 - k)), k = min(8 - offset, needed); offset := 0; needed -= k - tabulated for 8 / 16 / 32-bit accumulators over all offsets, counts and bytes; '
                      'starts at byte bits_read/8, offset bits_read%8, accum 0; returns accum', where_of(b, upd_acc[0][0]))
